@@ -1,13 +1,13 @@
-\* C47 leg A thorough: contents {p1, p2 (plain), e1 (references the env var)}, config dir files {a,b}, watched dir
-\* file {w}, env values {v1,v2}; every history with <= 4 changes/failing applies and any number of successful applies.
-\* Leg B: all normal-form histories of <= 5 operations ending with an apply.
+\* C47 leg A thorough (safety): contents {p1, p2 (plain), e1 (references the env var)}, config dir files {a,b}, watched
+\* dir file {w}, env values {v1,v2}; every history with <= 5 changes/failing applies and any number of successful
+\* applies.  Leg B: all normal-form histories of <= 4 operations ending with an apply.
 SPECIFICATION Spec
 CONSTANTS Contents = {"p1", "p2", "e1"}
           DirNames = {"a", "b"}
           WatNames = {"w"}
           EnvVals = {"v1", "v2"}
-          Budget = 4
-          HistLen = 5
+          Budget = 5
+          HistLen = 4
 INVARIANT OutputsFollowInputs
-PROPERTIES AppliesSatisfyProperty SummaryAgrees NoReloadOnceSynced EventuallySynced
+PROPERTIES AppliesSatisfyProperty SummaryAgrees NoReloadOnceSynced
 CHECK_DEADLOCK FALSE
